@@ -233,10 +233,12 @@ def show_rel(r, ser: Serials, engines: dict[int, str]) -> str:
             return f"(b {show_bop(op)} {show_cols(r.columns)} {ls} {rs})"
         case Materialization(target=t, name=name):
             ts = show_rel(t, ser, engines)
-            return f"(mat #{ser.of(r)}{'+' if r.payload is not None else ''} {name} {ts})"
+            mark = "+" if (r.payload is not None and not isinstance(ser.of(r), str)) else ""
+            return f"(mat #{ser.of(r)}{mark} {name} {ts})"
         case Transfer(target=t, destination=d):
             ts = show_rel(t, ser, engines)
-            return f"(xfer #{ser.of(r)}{'+' if r.payload is not None else ''} {eng(d)} {ts})"
+            mark = "+" if (r.payload is not None and not isinstance(ser.of(r), str)) else ""
+            return f"(xfer #{ser.of(r)}{mark} {eng(d)} {ts})"
         case Select():
             ks = show_rel(r.skip_to, ser, engines)
             ts = show_rel(r.target, ser, engines)
